@@ -215,6 +215,15 @@ theorem pattern_alone_does_not_confine_vault :
   have : kidClasses C03.kidPatternRx = some ([(32, 32), (35, 35), (45, 46), (48, 58), (65, 90), (95, 95), (97, 122)], [(48, 57), (65, 70), (97, 102)]) := by decide
   rw [this] at h; cases h; decide +kernel
 
+/-- every Vault method that takes a key name derives its path with `privateKeyPath(prefix, <that name>)` -/
+theorem fact_vault_methods_use_key_path :
+    C03.vaultPathBindings = ["GetPrivateKey:privateKeyPath(v.config.PathPrefix, keyName)",
+      "PrivateKeyExists:privateKeyPath(v.config.PathPrefix, keyName)", "ListPrivateKeys:privateKeyListPath(v.config.PathPrefix)",
+      "privateKeyPath:fmt.Sprintf(\"%s/%s/%s\", prefix, privateKeyPathName, filepath.Base(kid))",
+      "privateKeyListPath:fmt.Sprintf(\"%s/%s\", prefix, privateKeyPathName)",
+      "SavePrivateKey:privateKeyPath(v.config.PathPrefix, keyPath)", "DeletePrivateKey:privateKeyPath(v.config.PathPrefix, kid)"] := by
+  decide
+
 /-- the Vault directory name used above is the one in the source -/
 theorem fact_vault_path_name : C03.vaultKeyPathNameStr = "nuts-private-keys" ∧ C03.vaultKeyPathName.length = 17 := by decide
 
